@@ -251,7 +251,7 @@ func init() {
 func init() {
 	Register(&Engine{
 		Prop: "C01", Name: "fsdiff", Run: runC01,
-		Trials: map[string]int{"quick": 3000, "thorough": 200000},
+		Trials: map[string]int{"quick": 30000, "thorough": 400000},
 		Rule:   "seeded histories (1-24 steps) of the twelve namespace operations over the alphabet {a,b,c} (depth<=3, all OpenFile flag sets, perms incl. type/setuid bits), applied step by step to the SUT (mem.FS, keyvalue.FS over sharing/copying SimStore) and to os.FS in a fresh scratch directory; a trial is non-trivial when at least one mutation succeeded on the reference; distinct = distinct event-log hash (ops, outcomes)",
 		Components: map[string][]string{
 			"real": {"mem.FS", "keyvalue.FS", "keyvalue/blob", "hackpadfs package helpers", "os.FS", "Go os package + Linux kernel (tmpfs)"},
